@@ -316,6 +316,50 @@ def _triple_chunk(args):
     return n, 0, v
 
 
+# ------------------------------------------------------------------ every named unit pair
+
+
+def _named_chunk(pairs):
+    """1 a against (size(a)/size(b)) * (1 +- 1e-3) b for every pair of named units of one
+    dimension: the order must follow the sizes the declarations imply, in both argument
+    orders, whichever chain of definitions the implicit conversion happens to walk."""
+    from ..convspace import Space, mag
+
+    w = get_world()
+    prepare(w)
+    global _SPACE
+    if _SPACE is None:
+        _SPACE = Space(w)
+    sp = _SPACE
+    viols, n, nt = [], 0, 0
+    for a, b in pairs:
+        w.restore()
+        ua, ub = sp.by_name[a], sp.by_name[b]
+        ratio = sp.oracle.unit_size(ua) / sp.oracle.unit_size(ub)
+        qa = 1 * ua
+        for f, rel in ((Decimal("1.001"), "<"), (Decimal("0.999"), ">")):
+            qb = float(ratio * f) * ub
+            n += 1
+            got = ops_table(qa, qb)
+            rev = ops_table(qb, qa)
+            if any(isinstance(v, str) for v in got.values()):
+                continue  # not convertible: ordering raises, == is False (C07)
+            nt += 1
+            want = EXPECT[rel]
+            wrev = EXPECT[">" if rel == "<" else "<"]
+            bad = [op for op in want if got[op] != want[op]] + [f"reversed {op}" for op in wrev if rev[op] != wrev[op]]
+            if bad:
+                viols.append((
+                    "named_pair_order_disagrees_with_definitions", f"{a} vs {b}",
+                    f"1 {a} vs {float(ratio * f)!r} {b} (which is {f} x as large by the declared definitions): wrong {bad}; got {got}",
+                    {"what": "named", "a": a, "b": b}))
+    w.restore()
+    return n, nt, viols
+
+
+_SPACE = None
+
+
 # ------------------------------------------------------------------ mixed kinds
 
 
@@ -479,9 +523,14 @@ def run(rep, tier):
         for c in chunked(tri, 4):
             tjobs.append((dim, c))
     tres = pmap(_triple_chunk, tjobs)
-    n = sum(r[0] for r in res) + sum(r[0] for r in tres)
-    nt = sum(r[1] for r in res)
-    for r in res + tres:
+    from ..convspace import Space
+
+    sp = Space(w)
+    npairs = [(a, b) for names in sp.groups.values() for i, a in enumerate(names) for b in names[i + 1:]]
+    nres = pmap(_named_chunk, chunked(npairs, 64))
+    n = sum(r[0] for r in res) + sum(r[0] for r in tres) + sum(r[0] for r in nres)
+    nt = sum(r[1] for r in res) + sum(r[1] for r in nres)
+    for r in res + tres + nres:
         rep.extend(r[2])
     w.restore()
     nm, nitems, mv = check_mixed(w)
@@ -498,6 +547,7 @@ def run(rep, tier):
             "non-trivial = the two operands are different pool items",
             "pools": {d: [x[0] for x in p] for d, p in P.items()},
             "mixed_pool": [l for l, _ in mixed_pool(w)],
+            "named_unit_pairs": len(npairs),
             "samples": [f"{P['length'][0][0]} vs {P['length'][3][0]}", f"{P['mass'][4][0]} vs {P['mass'][6][0]}"],
             "exhaustive": True,
         }
@@ -530,6 +580,9 @@ def replay(obj, kind=None):
                 bad = True
                 obs["intervals_in_kelvin"] = [ia, ib]
         return bad, f"{obj['a']} vs {obj['b']}: {obs}"
+    if obj["what"] == "named":
+        n, nt, v = _named_chunk([(obj["a"], obj["b"])])
+        return bool(v), "; ".join(x[2] for x in v) or "order follows the declared definitions"
     pool = pools(w)[obj["dim"]]
     if obj["what"] == "pair":
         n, nt, v = check_pairs(w, obj["dim"], pool, [(obj["i"], obj["j"])])
